@@ -196,7 +196,10 @@ func C01(run *report.Run) {
 		if f := os.Getenv("VERIF_ONLY"); f != "" && !strings.Contains(cfg.Name, f) {
 			continue
 		}
-		if run.Thorough() {
+		if !world.HookAvailable {
+			e.MaxDepth = 3
+			e.MaxStates = 20000
+		} else if run.Thorough() {
 			e.MaxStates = 400000
 		} else {
 			e.MaxStates = 60000
